@@ -15,7 +15,7 @@
     No proofs in this file. *)
 From Coq Require Import List Bool ZArith Permutation.
 Import ListNotations.
-Open Scope Z_scope.
+Local Open Scope Z_scope.
 
 (* ------------------------------------------------------------------ sorting (sort.Slice / sort.Strings) *)
 
